@@ -92,6 +92,10 @@ class RigBackend(AsyncIOBackend):
 # scripted environment
 
 
+def _noop() -> None:
+    return None
+
+
 class Ev:
     __slots__ = ("label", "apply", "delay", "gate")
 
@@ -161,8 +165,13 @@ class Script:
             self.world.at(self.last_t[i] + lane[0].delay, functools.partial(self._fire, i))
 
     def _fire(self, i: int) -> None:
+        # runs inside World.select (the loop is idle).  If the event has no effect on the loop (bytes for a socket that
+        # the server closed meanwhile) the select would go on sleeping without consulting env() again: force one more
+        # (empty) loop iteration so that untimed events / the quiescence test get their turn.
         self.armed[i] = False
         self._apply(i)
+        if self.loop is not None and not self.world.runnable():
+            self.loop.call_soon(_noop)
 
     def _apply(self, i: int) -> None:
         ev = self.lanes[i].popleft()
